@@ -33,7 +33,7 @@ func installValidator() {
 }
 
 // history classes: what kind of batch each build of a history gets
-var histKinds = []string{"large", "small", "manyfields", "fewfields", "syn", "plain", "vec", "empty", "rejected", "one", "dv", "nodv", "deep", "emptysyn"}
+var histKinds = []string{"large", "small", "manyfields", "fewfields", "syn", "plain", "vec", "empty", "rejected", "one", "dv", "nodv", "deep", "emptysyn", "shapes"}
 
 func histBatch(rng *rand.Rand, kind string, prefix string) *model.Batch {
 	o := model.GenOpts{NoBig: true, IDPrefix: prefix}
@@ -77,6 +77,18 @@ func histBatch(rng *rand.Rand, kind string, prefix string) *model.Batch {
 				b.Docs[di].Fields[fi].DV = kind == "dv"
 			}
 		}
+		return b
+	case "shapes":
+		// geo-shape instances in fields without doc values: the builder collects
+		// their shapes although nothing will write them
+		b := model.Gen(rng, "small", o)
+		for di := range b.Docs {
+			b.Docs[di].IDDV = false
+			for fi := range b.Docs[di].Fields {
+				b.Docs[di].Fields[fi].DV = false
+			}
+		}
+		model.AddShapes(b, 1)
 		return b
 	case "rejected":
 		b := model.Gen(rng, "small", o)
